@@ -6,5 +6,12 @@ CHECKS = {
  'C19': {'text': 'Complete enumeration of width 1..64 x boundary values x bit offset 0..7 for unsigned / sign-magnitude / in-place overwrite / non-fitting values / reads past the end (about 15k cells, exhaustive for that space), plus thousands of random typed field sequences against a str-of-bits model.',
          'note': 'Model of the stream is a Python str of bits; signed widths 2..64 (a sign-magnitude field needs a magnitude bit).',
          'technique': 'exhaustive small-scope enumeration + property-based sequences (Hypothesis) against a bit-string model'},
+
+ 'C02': {'text': 'Generated search: the encoder is fed the flat JSON of thousands of reference-built messages (as object and as JSON text, strings un-padded at random); uncompressed output must be byte-identical to the independently built message, compressed output is parsed by the reference compressed reader and must satisfy the validity predicate of the statement. Bounded random exploration.',
+         'note': 'Trusts refbufr as the canonical writer; for compressed data only validity (min+diff==raw, all-ones<=>missing, width 0<=>all equal) is demanded, not a particular width.',
+         'technique': 'property-based testing (Hypothesis): byte-identity differential against an independent encoder; validity predicate via independent compressed reader'},
+ 'C05': {'text': 'Exhaustive enumeration of every column of 1..4 subsets (quick: 1..3) over {missing, 0..2^w-2} for widths 1..4, numeric and code, through encoder->decoder, encoder->independent reader and reference-writer (all legal difference widths incl. 63)->decoder; plus generated templates / 33..64-bit fields / character columns stored both ways and compared on values, labels, links and nested view.',
+         'note': 'Exhaustive only for the enumerated small-scope column space; random beyond. Reference writer defines "legal difference width" as any width holding the differences with all-ones reserved.',
+         'technique': 'exhaustive small-scope enumeration + property-based metamorphic testing (compressed vs uncompressed) with an independent reader/writer'},
 }
 NOT_YET = {}
